@@ -305,17 +305,15 @@ Section CheckerSpec.
   Qed.
 End CheckerSpec.
 
-Definition back_P (nbt obt ot backt : list tree) (values : list (list N * list oval)) : Prop :=
+Definition back_P (accept : bool) (nbt obt ot backt : list tree) : Prop :=
   forall b' b t, nbt = [b'] -> obt = [b] -> ot = [t] ->
-    (forall p vs, In (p, vs) values -> disjoint_at b b' t p = true) -> backt = [t].
+    back_applies accept b b' t = true -> backt = [t].
 
-Lemma back_ok_spec nbt obt ot backt values :
+Lemma back_ok_spec accept nbt obt ot backt :
   match nbt, obt, ot with
-  | [b'], [b], [t] =>
-      negb (forallb (fun pv : list N * list oval => disjoint_at b b' t (fst pv)) values)
-      || trees_eqb backt [t]
+  | [b'], [b], [t] => negb (back_applies accept b b' t) || trees_eqb backt [t]
   | _, _, _ => true
-  end = true <-> back_P nbt obt ot backt values.
+  end = true <-> back_P accept nbt obt ot backt.
 Proof.
   unfold back_P.
   destruct nbt as [|b' [|? ?]]; [| |split; [intros _ x y z H1; discriminate H1|reflexivity]];
@@ -326,13 +324,9 @@ Proof.
     try (split; [intros _ x y z H1 H2 H3; discriminate H1 || discriminate H2 || discriminate H3|reflexivity]).
   rewrite Bool.orb_true_iff, Bool.negb_true_iff, trees_eqb_spec. split.
   - intros H x y z E1 E2 E3 Hd. injection E1 as <-. injection E2 as <-. injection E3 as <-.
-    destruct H as [H|H]; [|assumption]. exfalso.
-    assert (forallb (fun pv : list N * list oval => disjoint_at b b' t (fst pv)) values = true).
-    { apply forallb_forall. intros [p vs] Hin. cbn [fst]. eapply Hd; eauto. }
-    congruence.
-  - intros H. destruct (forallb _ values) eqn:E; [right|now left].
-    apply (H b' b t eq_refl eq_refl eq_refl). intros p vs Hin.
-    rewrite forallb_forall in E. apply (E (p, vs) Hin).
+    destruct H as [H|H]; [congruence|assumption].
+  - intros H. destruct (back_applies accept b b' t) eqn:E; [right|now left].
+    now apply (H b' b t).
 Qed.
 
 Theorem okb_spec (c : case) :
@@ -348,7 +342,7 @@ Theorem okb_spec (c : case) :
     if same_parent_trees c then rt = ot /\ backt = ot
     else (forall p vs, In (p, vs) (C08.dec_values c) -> p <> [] ->
                        law_P (c_accept c) (map (dec tab) (c_unresolved c)) nbt obt ot p vs)
-         /\ back_P nbt obt ot backt (C08.dec_values c).
+         /\ back_P (c_accept c) nbt obt ot backt.
 Proof.
   unfold C08.okb.
   destruct (c_old_base c) as [ob|], (c_new_base c) as [nb|], (c_rebased c) as [r|], (c_back c) as [back|];
